@@ -106,6 +106,9 @@ def res_of(err) -> str:
 class StreamRun:
     def __init__(self, kind: str, limit: int) -> None:
         self.loop = asyncio.new_event_loop()
+        self._skew = 0.0
+        real_clock = self.loop.time
+        self.loop.time = lambda: real_clock() + self._skew      # the loop's clock can be moved forward
         self.kind = kind
         self.limit = limit
         self.events: list[dict] = []
@@ -120,7 +123,11 @@ class StreamRun:
         else:
             self.tr = SerialTransport("/dev/null-verif", 115200)
 
+        self.connect_hangs = False
+
         async def factory(*_a, **_k):
+            if self.connect_hangs:
+                await asyncio.get_running_loop().create_future()      # the peer never answers
             if self.connect_fault:
                 raise ConnectionRefusedError("injected")
             self.reader = asyncio.StreamReader(limit=self.limit)
@@ -170,7 +177,7 @@ class StreamRun:
     def do(self, cmd: list) -> None:
         op = cmd[0]
         unconnected_probe = op in ("read", "write") and len(cmd) > 1 and cmd[1] == "unconnected"
-        if op in ("read", "write", "cwrite", "feed", "eof", "ioerror", "disconnect") and not unconnected_probe and not self.is_connected:
+        if op in ("read", "cancel_read", "write", "cwrite", "feed", "eof", "ioerror", "disconnect") and not unconnected_probe and not self.is_connected:
             return  # the model only uses a connected transport (use before the first connect is probed explicitly)
         if op == "connect":
             if self.is_connected:
@@ -180,6 +187,31 @@ class StreamRun:
                 res = self.call(self.tr.connect())
             self.is_connected = (res == "ok")
             self.events.append({"op": "connect", "fault": not cmd[1], "res": res})
+        elif op == "connect_hang":
+            # the peer never answers the connection attempt; an hour passes on the loop's clock.  The attempt is either
+            # still pending (the caller's business) or has failed as a transport error - nothing else
+            if self.is_connected:
+                return
+            self.connect_hangs = True
+            with self._patched():
+                task = self.loop.create_task(self.tr.connect())
+                for _ in range(5):
+                    self.loop.run_until_complete(asyncio.sleep(0))
+                self._skew += 3600.0
+                for _ in range(10):
+                    self.loop.run_until_complete(asyncio.sleep(0))
+                if task.done():
+                    res = "ok" if (not task.cancelled() and task.exception() is None) else \
+                        ("other:CancelledError" if task.cancelled() else res_of(task.exception()))
+                else:
+                    res = "pending"
+                    task.cancel()
+                    try:
+                        self.loop.run_until_complete(task)
+                    except BaseException:  # noqa: BLE001
+                        pass
+            self.connect_hangs = False
+            self.events.append({"op": "connect_hang", "res": res})
         elif op in ("read", "write") and len(cmd) > 1 and cmd[1] == "unconnected":
             coro = self.tr.read() if op == "read" else self.tr.write("1;255;3;0;2;\n")
             self.events.append({"op": op + "_unconnected", "res": self.call(coro)})
@@ -195,6 +227,20 @@ class StreamRun:
             if self.reader is not None:
                 self.reader.set_exception(ConnectionResetError("injected"))
                 self.events.append({"op": "ioerror"})
+        elif op == "cancel_read":
+            # the caller gives up waiting for a line (a timeout around read): no byte may be lost to the abandoned call
+            if not self.reads:
+                return
+            rid, task = next(iter(self.reads.items()))
+            if task.done():
+                return
+            task.cancel()
+            try:
+                self.loop.run_until_complete(task)
+            except BaseException:  # noqa: BLE001
+                pass
+            del self.reads[rid]
+            self.events.append({"op": "read_cancelled", "id": rid})
         elif op == "read":
             if self.reads:
                 return  # one reader at a time (asyncio streams do not allow concurrent readuntil calls)
@@ -339,6 +385,8 @@ def random_jobs(rnd: random.Random, n: int) -> list:
         if k % 7 == 0:   # lines that begin with a byte-order mark, a lone CR, a NUL
             stream = [0xEF, 0xBB, 0xBF] + stream[:6] + [10, 0xEF, 0xBB, 0xBF, 10, 13, 10, 0, 10] + stream[6:]
         cmds = [["connect", True]]
+        if k % 11 == 3:
+            cmds = [["connect_hang"], ["connect", True]]
         pos = 0
         for _ in range(rnd.randint(1, 14)):
             r = rnd.random()
@@ -346,8 +394,10 @@ def random_jobs(rnd: random.Random, n: int) -> list:
                 kk = rnd.randint(1, min(9, len(stream) - pos))
                 cmds.append(["feed", stream[pos:pos + kk]])
                 pos += kk
-            elif r < 0.8:
+            elif r < 0.77:
                 cmds.append(["read"])
+            elif r < 0.8:
+                cmds.append(["cancel_read"])
             elif r < 0.85:
                 cmds.append(["write", rnd.choice(["1;255;3;0;2;\n", "é;\n", "\U0001f600\n", ""]), rnd.choice(["none", "none", "write", "drain", "drain_timeout", "drain_oserror", "write_oserror"])])
             elif r < 0.9 and pos >= len(stream):
